@@ -668,6 +668,11 @@ def genMerge (rng : Rng) (broken : Bool) : Rng × Array String :=
   let capR := capR + hrR
   let (rng, idsL) := pickIds rng capL (kl + 1) hrL
   let (rng, idsR) := pickIds rng capR (kr + 1) hrR
+  -- one broken merge in four has its extra vertices a power of two away from vertices of the tree (ids that share a bit, a
+  -- word or a bucket with a reached one in a table indexed by id): the right capacity grows by that distance
+  let (rng, alias) := rng.pick [0, 0, 0, 0, 0, 0, 8, 16, 32, 32, 64, 64, 128, 256]
+  let alias := if broken then alias else 0
+  let capR := capR + alias
   -- the left tree often holds few data (so that one vertex holds the last unread datum of its group); now and then
   -- a right vertex carries the very bytes a left vertex holds
   let (rng, densL) := rng.pick [2, 2, 4, 7]
@@ -719,7 +724,10 @@ def genMerge (rng : Rng) (broken : Bool) : Rng × Array String :=
     let s := { s with rng := rng }
     if c = 0 ∧ nd.id ∈ s.r.ids ∧ nd.data.isSome ∧ (R.data s.r nd.id).ids.length = s.r.ids.length then s.emit (.data nd.id) else s) s1
   let freeR := (List.range capR).filter (· ∉ idsR)
-  let s1 := if broken then
+  let aliasIds := ((idsR.take 2).map (· + alias)).filter (fun v => v ∉ idsR ∧ v < capR)
+  let s1 := if broken ∧ alias ≠ 0 ∧ aliasIds ≠ [] then
+      aliasIds.foldl (fun (s : GenSt) a => match s.tryOps [.add a, .put a (Hx.Hex.ofBytes [3, 2])] with | some x => x | none => s) s1
+    else if broken then
       match mode, freeR with
       | 0, a :: _ => match s1.tryOps [.add a] with | some x => x | none => s1
       | 1, a :: b :: _ => match s1.tryOps [.add a, .add b, .bind a b (.alpha 0), .put b (Hx.Hex.ofBytes [9])] with | some x => x | none => s1
